@@ -74,9 +74,27 @@ module_plan('C02', 800, 20000,
             "random decorated modules, structure-heavy profile (nesting <= 4, dangling doccomments, generic commands, blocks, 15% "
             "malformed stream); non-trivial = >=3 undocumented and >=1 documented command; plus the dispatch table (process_* methods, "
             "include_undocumented_* fields) read off the code at run time", extra_run=_c02_extra)
+def _c03_extra(tier, seed, out, drv):
+    """the same property with the settings arriving the way a user's do: main() + a -s file, patterns drawn from the module's own text"""
+    import s_modcli
+    s_modcli.settings_path_suite('C03', seed, 80 if tier == 'quick' else 3000, out, drv, budget_s=40 if tier == 'quick' else 600)
+
+
 module_plan('C03', 800, 20000,
             "random decorated modules, kwargs profile (definitions, cmake_parse_arguments at all placements, random trigger strings "
-            "and strip patterns incl. ones matching the name); non-trivial = a definition plus a cmake_parse_arguments call or trigger hit")
+            "and strip patterns incl. ones matching the name); non-trivial = a definition plus a cmake_parse_arguments call or trigger hit; "
+            "settings path: well-formed modules with definitions x trigger strings / strip patterns drawn from the module's own doccomments, "
+            "parameters and names (white-space edges, padding, anchors, empty), given in a -s YAML file to the real main(); the page main() "
+            "writes is compared with the API's page under the same settings and judged by the module's prescription", extra_run=_c03_extra)
+def _c03_wrap():
+    import s_modcli
+    p = PLANS['C03']; mod = dict(p); mine = lambda v: v.get('suite') == 'settings-path'
+    def search(tier, seed, out, drv, dis):
+        if any(mine(d) for d in dis): s_modcli.settings_path_suite('C03', seed + 7919, 400, out, drv, budget_s=120)
+        mod['search'](tier, seed, out, drv, dis)
+    p.update(search=search, shrink=lambda v, drv: (s_modcli.shrink('C03') if mine(v) else mod['shrink'])(v, drv),
+             replay=lambda v, drv: (s_modcli.replay('C03') if mine(v) else mod['replay'])(v, drv))
+_c03_wrap()
 def _c08_exhaustive(tier, seed, out, drv):
     """all 2^10 combinations of the include flags on a fixed family of modules that contain every kind documented and undocumented"""
     import itertools
